@@ -715,6 +715,8 @@ class _RuleDenoter:
                     self.rename(ctx, rv if rv.startswith("_") else lv, lv if rv.startswith("_") else rv)
             else:
                 new, old = (r, l) if le else (l, r)
+                if new[0] not in ("app", "dom", "cod"):
+                    raise ParseError("variable introduced in a then statement")
                 ov = self.flatten(old, ctx, extra)
                 rel, args = self.relname(new, ctx)
                 avs = [self.flatten(t, ctx, extra) for t in args]
